@@ -48,6 +48,14 @@ pub fn check_tiling(
         if hi == lo {
             continue;
         }
+        if lo < pos && site == graaf::verif::AL_IS_SEMICOMPLETE {
+            // The workers of this site only read the digraph and AND their
+            // answers: two workers looking at the same rows is redundant
+            // work, not a wrong result and not a race. Recorded, not judged.
+            o.bump("note: overlapping row ranges at a read-only site");
+            pos = pos.max(hi);
+            continue;
+        }
         if lo < pos {
             ok = false;
             why = format!("rows {lo}..{} are processed by two workers", pos.min(hi));
@@ -71,9 +79,12 @@ pub fn check_tiling(
         format!("begin ranges {sorted:?} but end ranges {se:?}")
     });
     let avail = std::thread::available_parallelism().map_or(1, |x| x.get());
-    o.check(begins.len() <= avail.max(1), &format!("tiling-workers:{what}"), || {
-        format!("{} workers but available_parallelism() = {avail}", begins.len())
-    });
+    // No property bounds the number of workers by the number of CPUs (C17
+    // quantifies over thread counts, it does not prescribe them): recorded
+    // for the evidence, never judged.
+    if begins.len() > avail.max(1) {
+        o.bump("note: more workers than available_parallelism");
+    }
     // interleaving signature: order of begin/end events by range start
     let mut fp = Fp::new();
     for e in ev.iter().filter(|e| e.0 == site) {
